@@ -5,7 +5,8 @@ package bitmap
 // Since 0.1.9
 func Slice(words []uint64, from, to int32) []uint64 {
 
-	l := ((to - from) + 63) >> 6
+	// int64: to - from + 63 does not fit in int32 for a range longer than 1<<31-64.
+	l := (int64(to) - int64(from) + 63) >> 6
 	r := make([]uint64, l)
 
 	for i := from; i < to; i++ {
